@@ -48,6 +48,17 @@ What is transliterated, and from where
   two commands end in the same state. Site `fileout` (repaired: the target adopts `format`/`filename`,
   appends to the new file, re-subscribes through the new link, and waits for a command instead of leaving
   when its link reports `Gone`).
+## `Filter` — filter unit (`src/units/filter/unit.rs:152-207`)
+* `St.name` = the runner's `ArcSwap<FilterName>` (stored on `Reconfiguring` when different; read nowhere:
+  `filter_payload` is `todo!()`), `sources` = the direct links held by the run loop, each pointing at the gate
+  its upstream unit serves after this load (`gen` = number of loads; every load makes a new gate per unit and
+  `GateAgent::reconfigure` moves the running unit onto it, dropping the old subscriber map).
+* `reload c`: `filter_name.store`, `sources = new_sources` (the old links are dropped), every new link
+  `connect`ed as a direct-update target. `eos u t`: upstream `u` publishes `UpstreamStatusChange(EndOfStream)`
+  on the gate it serves; `process_update` passes it on iff the filter holds a link of that gate.
+## `NullOut` — null-out (`src/targets/null.rs:48-58`)
+* `reload srcs`: `self.sources = new_sources` (then `suspend`, a no-op on links that were never connected);
+  `report` = `TargetCommand::ReportLinks`: `report.set_sources(&self.sources)` (nothing for an empty list).
 Theorems: `Props/ReconfUnits.lean`. Import-free so that the driver links.
 -/
 namespace Rotonda.ReconfUnits
@@ -335,5 +346,92 @@ def cfgAfter (c : Cfg) : List Ev → Cfg
   | _ :: es => cfgAfter c es
 
 end FileOut
+
+/-! ## filter -/
+namespace Filter
+
+structure Cfg where
+  name : Nat
+  sources : List Nat
+  deriving DecidableEq, Repr
+
+structure St where
+  name : Nat
+  sources : List (Nat × Nat)   -- (upstream unit, generation of the gate the link points at)
+  gen : Nat := 0
+  out : List Nat := []         -- end-of-stream notices passed on (their ingress ids), in order
+  deriving DecidableEq, Repr
+
+def init (c : Cfg) : St := { name := c.name, sources := c.sources.map (·, 0) }
+
+inductive Ev where
+  | eos (u : Nat) (tag : Nat)
+  | reload (c : Cfg)
+  deriving DecidableEq, Repr
+
+def step (s : St) : Ev → St
+  | .eos u t => if s.sources.contains (u, s.gen) then { s with out := s.out ++ [t] } else s
+  | .reload c => { s with name := c.name, gen := s.gen + 1, sources := c.sources.map (·, s.gen + 1) }
+
+def run (s : St) : List Ev → St
+  | [] => s
+  | e :: es => run (step s e) es
+
+def trace (s : St) : List Ev → List St
+  | [] => []
+  | e :: es => step s e :: trace (step s e) es
+
+/-- Reference semantics: a notice is passed on iff its upstream is a source of the configuration in force. -/
+def spec (c : Cfg) : List Ev → List Nat
+  | [] => []
+  | .eos u t :: es => if c.sources.contains u then t :: spec c es else spec c es
+  | .reload c' :: es => spec c' es
+
+def cfgAfter (c : Cfg) : List Ev → Cfg
+  | [] => c
+  | .reload c' :: es => cfgAfter c' es
+  | _ :: es => cfgAfter c es
+
+end Filter
+
+/-! ## null-out -/
+namespace NullOut
+
+structure St where
+  sources : List (Nat × Nat)   -- (upstream unit, generation of its gate)
+  gen : Nat := 0
+  deriving DecidableEq, Repr
+
+def init (srcs : List Nat) : St := { sources := srcs.map (·, 0) }
+
+inductive Ev where
+  | report
+  | reload (srcs : List Nat)
+  deriving DecidableEq, Repr
+
+def step (s : St) : Ev → St
+  | .report => s
+  | .reload srcs => { sources := srcs.map (·, s.gen + 1), gen := s.gen + 1 }
+
+def run (s : St) : List Ev → St
+  | [] => s
+  | e :: es => run (step s e) es
+
+def trace (s : St) : List Ev → List St
+  | [] => []
+  | e :: es => step s e :: trace (step s e) es
+
+/-- the sources of the last load (or of the start configuration) -/
+def lastSources (srcs : List Nat) : List Ev → List Nat
+  | [] => srcs
+  | .reload s' :: es => lastSources s' es
+  | .report :: es => lastSources srcs es
+
+def loads : List Ev → Nat
+  | [] => 0
+  | .reload _ :: es => loads es + 1
+  | .report :: es => loads es
+
+end NullOut
 
 end Rotonda.ReconfUnits
